@@ -257,6 +257,8 @@ func WorkerMain(t *testing.T, props map[string]*Prop) {
 	replayDir := os.Getenv("VERIF_REPLAY_DIR")
 	start := time.Now()
 	done := 0
+	seenSig := map[string]int{}
+	firstReplay := map[string]string{}
 	for i := 0; i < count && done < maxRuns; i++ {
 		if time.Since(start) > budget {
 			break
@@ -299,15 +301,25 @@ func WorkerMain(t *testing.T, props map[string]*Prop) {
 						isKnown = true
 					}
 				}
-				if !isKnown || os.Getenv("VERIF_SHRINK_KNOWN") != "" {
+				// Only the first few violations of one signature are minimised and written
+				// as replay files; later ones point at the first file of their signature.
+				seenSig[oc.Viol[0].Sig]++
+				dup := seenSig[oc.Viol[0].Sig] > 2
+				if dup {
+					line.Replay = firstReplay[oc.Viol[0].Sig]
+				}
+				if !dup && (!isKnown || os.Getenv("VERIF_SHRINK_KNOWN") != "") {
 					Shrink(t, pr.Engine, rp, 60*time.Second)
 				}
-				if replayDir != "" {
+				if replayDir != "" && !dup {
 					os.MkdirAll(replayDir, 0o755)
 					name := filepath.Join(replayDir, fmt.Sprintf("%s-%s-%d.%d.json", id, tier, idx, sub))
 					b, _ := json.MarshalIndent(rp, "", " ")
 					if err := os.WriteFile(name, b, 0o644); err == nil {
 						line.Replay = name
+						if firstReplay[oc.Viol[0].Sig] == "" {
+							firstReplay[oc.Viol[0].Sig] = name
+						}
 					}
 				}
 				line.Outcome.Viol = []Violation{rp.Violation}
